@@ -138,6 +138,36 @@ class StatsHook:
             self.cmp("fresh-object std_fn_frequency", obj.std_fn_frequency(inst.dist_f), fresh.std_fn_frequency(inst.dist_f), sline, cv, inst)
 
 
+def kwargs_by_reference(run, hvsrpy):
+    """The object's statistics are those of its CURRENT peak definition: a find_peaks_kwargs dictionary that the caller changes in
+    place and passes again (same search range) re-evaluates the peaks like a fresh dictionary with the same content would."""
+    f = np.geomspace(0.5, 20, 14)
+    rows = []
+    for w in range(5):
+        a = np.ones(14)
+        a[2 + (w % 2)] = 6.0 + w
+        a[7:12] = [2.0, 3.0, 3.5 + 0.1 * w, 3.0, 2.0]
+        rows.append(a)
+    rows = np.array(rows)
+    for rng_ in ((None, None), (0.8, 18.0)):
+        obj = hvsrpy.HvsrTraditional(f, rows)
+        kw = dict(width=1)
+        obj.update_peaks_bounded(search_range_in_hz=rng_, find_peaks_kwargs=kw)
+        first = obj.mean_fn_frequency("lognormal")
+        kw["width"] = 2                      # the caller edits its own dictionary ...
+        obj.update_peaks_bounded(search_range_in_hz=rng_, find_peaks_kwargs=kw)      # ... and asks again
+        fresh = hvsrpy.HvsrTraditional(f, rows)
+        fresh.update_peaks_bounded(search_range_in_hz=rng_, find_peaks_kwargs=dict(width=2))
+        same = (np.array_equal(obj._main_peak_frq, fresh._main_peak_frq, equal_nan=True) and np.array_equal(obj.valid_peak_boolean_mask, fresh.valid_peak_boolean_mask)
+                and obj.mean_fn_frequency("lognormal") == fresh.mean_fn_frequency("lognormal") and np.array_equal(obj.mean_curve("lognormal"), fresh.mean_curve("lognormal")))
+        if not same or first == fresh.mean_fn_frequency("lognormal"):
+            run.violation("stat:kwargs-by-reference", f"range {rng_}: find_peaks_kwargs changed in place from width=1 to width=2 and passed again: window peaks "
+                          f"{obj._main_peak_frq.tolist()}, mean fn {obj.mean_fn_frequency('lognormal')}; a fresh object with width=2 has {fresh._main_peak_frq.tolist()}, "
+                          f"{fresh.mean_fn_frequency('lognormal')}" + ("" if first != fresh.mean_fn_frequency("lognormal") else " (instance does not discriminate)"),
+                          dict(kind="kwargs-ref", range=rng_))
+        run.case(("kwargs-ref", str(rng_)))
+
+
 def main():
     run = Run("C05")
     hvsrpy = import_hvsrpy()
@@ -198,6 +228,7 @@ def main():
     rpm.validate_pending()
     run.notes["replay_manual_sessions"] = rpm.stats
     run.notes["accessor_comparisons"] = hook.n
+    kwargs_by_reference(run, hvsrpy)
     return run.finish(
         rule="every transition of the exported HvsrObject graph (range updates, FDWRA, time-domain and manual "
              "rejection) replayed on real HvsrTraditional objects in 4 value encodings; in every state all statistic "
